@@ -5,6 +5,7 @@ package main
 import (
 	"fmt"
 	"go/token"
+	"go/types"
 	"sort"
 	"strings"
 
@@ -63,30 +64,20 @@ func ruleC20DisabledMeansNever(c *Ctx) {
 			continue
 		}
 		c.FuncsAnalysed[shortName(f)] = true
-		ok, tr := mustPass(f.Blocks[0], 0, func(i ssa.Instruction) bool {
-			cc := callOf(i)
-			if cc == nil || cc.IsInvoke() || cc.StaticCallee() != nil {
-				return false
+		loaderIdx := -1
+		for k, p := range f.Params {
+			if p.Name() == "loader" {
+				loaderIdx = k
 			}
-			p, isP := cc.Value.(*ssa.Parameter)
-			return isP && p.Name() == "loader"
-		}, nil)
-		stores := 0
-		allInstrs(f, func(i ssa.Instruction) {
-			switch x := i.(type) {
-			case *ssa.Store:
-				if _, local := x.Addr.(*ssa.Alloc); !local {
-					if fa, ok := x.Addr.(*ssa.FieldAddr); ok {
-						if _, l2 := fa.X.(*ssa.Alloc); l2 {
-							return
-						}
-					}
-					stores++
+		}
+		if loaderIdx < 0 {
+			for k, p := range f.Params {
+				if _, isSig := p.Type().Underlying().(*types.Signature); isSig {
+					loaderIdx = k
 				}
-			case *ssa.MapUpdate:
-				stores++
 			}
-		})
+		}
+		ok, tr, stores := alwaysCallsParam(f, loaderIdx, 0)
 		switch {
 		case !ok:
 			c.bad(construct, u.pos(f.Pos()), "a path returns without invoking the loader: with caching disabled something other than a fresh load is handed out", u.tracePositions(tr)...)
@@ -96,6 +87,58 @@ func ruleC20DisabledMeansNever(c *Ctx) {
 			c.ok(construct, u.pos(f.Pos()), "loader invoked on every path; no stores to non-local memory")
 		}
 	}
+}
+
+// alwaysCallsParam: every path through f calls its function-typed parameter #idx — directly, or by handing it to a
+// helper of the same package that does (depth ≤ 2). stores counts the stores to non-local memory in f and in those helpers.
+func alwaysCallsParam(f *ssa.Function, idx int, depth int) (ok bool, tr []ssa.Instruction, stores int) {
+	if f == nil || f.Blocks == nil || idx < 0 || idx >= len(f.Params) || depth > 2 {
+		return false, nil, 0
+	}
+	param := f.Params[idx]
+	ok, tr = mustPass(f.Blocks[0], 0, func(i ssa.Instruction) bool {
+		cc := callOf(i)
+		if cc == nil || cc.IsInvoke() {
+			return false
+		}
+		if _, isGo := i.(*ssa.Go); isGo {
+			return false
+		}
+		if _, isDefer := i.(*ssa.Defer); isDefer {
+			return false
+		}
+		if g := cc.StaticCallee(); g != nil {
+			if g.Pkg != f.Pkg || g == f {
+				return false
+			}
+			for k, a := range cc.Args {
+				if strip(a) == ssa.Value(param) {
+					if gok, _, gst := alwaysCallsParam(g, k, depth+1); gok {
+						stores += gst
+						return true
+					}
+				}
+			}
+			return false
+		}
+		return strip(cc.Value) == ssa.Value(param)
+	}, nil)
+	allInstrs(f, func(i ssa.Instruction) {
+		switch x := i.(type) {
+		case *ssa.Store:
+			if _, local := x.Addr.(*ssa.Alloc); !local {
+				if fa, isFA := x.Addr.(*ssa.FieldAddr); isFA {
+					if _, l2 := fa.X.(*ssa.Alloc); l2 {
+						return
+					}
+				}
+				stores++
+			}
+		case *ssa.MapUpdate:
+			stores++
+		}
+	})
+	return ok, tr, stores
 }
 
 func init() {
@@ -112,7 +155,7 @@ func init() {
 		Assumptions: []string{"interface invokes resolve to the repo's implementations (user-supplied Metastore/KMS/AEAD are opaque)", "log.Debugf and metrics calls make no metastore/KMS calls"},
 		Tech:        "static analysis: closure-binding-sensitive call-graph reachability (who-may-call), guarded-by-condition on SSA",
 		NeedU1:      true,
-		Rules:       []func(*Ctx){ruleC20HitIsPure, ruleC20ExternalOnlyViaCache, ruleC20FactoryWideSKCache, ruleC20ReloadOnce, ruleC20DisabledMeansNever, ruleC05StaleMeansReload, ruleC05ReloadRefreshes, ruleC05FreshnessWriters, ruleC15SetStoresValue, ruleC04LatestMapMonotonic, ruleC04LatestRevalidated, ruleC04LoaderRejectsInvalid, ruleC20StaleOnlyWhenReloadRequired, ruleC01ProvenanceDecrypt, ruleC20CacheSizedByOwnPolicy, ruleC01OldKeysAddressable, ruleC15PolicyCapacityIsTheConfigured},
+		Rules:       []func(*Ctx){ruleC20HitIsPure, ruleC20ExternalOnlyViaCache, ruleC20FactoryWideSKCache, ruleC20ReloadOnce, ruleC20DisabledMeansNever, ruleC05StaleMeansReload, ruleC05ReloadRefreshes, ruleC05FreshnessWriters, ruleC15SetStoresValue, ruleC04LatestMapMonotonic, ruleC04LatestRevalidated, ruleC04LoaderRejectsInvalid, ruleC20StaleOnlyWhenReloadRequired, ruleC01ProvenanceDecrypt, ruleC20CacheSizedByOwnPolicy, ruleC01OldKeysAddressable, ruleC15PolicyCapacityIsTheConfigured, ruleC20IKCachingFollowsTheFlag},
 	})
 }
 
@@ -310,15 +353,46 @@ func ruleC20FactoryWideSKCache(c *Ctx) {
 	c.FuncsAnalysed[shortName(ns)] = true
 	good := false
 	n := 0
+	isFactoryWide := func(v ssa.Value) bool { return strings.HasSuffix(accessPath(v), "P:f.systemKeys") }
+	litsIn := func(g *ssa.Function, judge func(v ssa.Value) bool) {
+		allInstrs(g, func(i ssa.Instruction) {
+			a, ok := i.(*ssa.Alloc)
+			if !ok || a.Comment != "complit" || !typeIsNamed(a.Type(), pkgApp, "envelopeEncryption") {
+				return
+			}
+			n++
+			if v, has := litFields(a)["skCache"]; has && judge(v) {
+				good = true
+			}
+		})
+	}
+	litsIn(ns, isFactoryWide)
+	// the literal may be built by a helper of the package that newSession hands the cache to
 	allInstrs(ns, func(i ssa.Instruction) {
-		a, ok := i.(*ssa.Alloc)
-		if !ok || a.Comment != "complit" || !typeIsNamed(a.Type(), pkgApp, "envelopeEncryption") {
+		cv, ok := i.(*ssa.Call)
+		if !ok {
 			return
 		}
-		n++
-		if v, has := litFields(a)["skCache"]; has && strings.HasSuffix(accessPath(v), "P:f.systemKeys") {
-			good = true
+		h := cv.Call.StaticCallee()
+		if h == nil || h.Blocks == nil || h.Pkg != ns.Pkg || h == ns {
+			return
 		}
+		c.FuncsAnalysed[shortName(h)] = true
+		litsIn(h, func(v ssa.Value) bool {
+			if isFactoryWide(v) && len(h.Params) > 0 && isParamNamed(cv.Call.Args[0], ns, 0) && h.Params[0].Name() == "f" {
+				return true // read from the same factory the helper was handed as its receiver
+			}
+			hp, isP := resolve(v).(*ssa.Parameter)
+			if !isP {
+				return false
+			}
+			for k, q := range h.Params {
+				if q == hp && k < len(cv.Call.Args) && isFactoryWide(cv.Call.Args[k]) {
+					return true
+				}
+			}
+			return false
+		})
 	})
 	c.check(good && n == 1, shortName(ns)+"/skCache", u.pos(ns.Pos()), "skCache = f.systemKeys", "a session's system-key cache is not the factory-wide cache: each session would unwrap the system key through the KMS again")
 	bad := ""
